@@ -25,10 +25,11 @@ Proof.
   apply BTeq_sym. apply dmm_eye_l; assumption.
 Qed.
 
-Lemma acts_zero m' Z : bsh Z = [] -> nr Z = m' -> (forall I i j, ent Z I i j = 0) ->
-  acts (fun X => dzero (bsh X) m' (nc X)) Z.
+Lemma acts_zero b m' Z : bsh Z = b -> nr Z = m' -> (forall I i j, ent Z I i j = 0) ->
+  acts (fun X => dzero (bcast (bsh X) b) m' (nc X)) Z.
 Proof.
-  intros HS HR HZ X [H1 H2]. unfold dmm, dzero. rewrite HS. repeat split; simpl; try congruence.
+  intros HS HR HZ X [H1 H2]. unfold dmm, dzero. rewrite HS in *.
+  split; [simpl; apply bcast_comm; rewrite bcompat_sym; exact H2|]. repeat split; simpl; try congruence.
   intros I i j _ _ _. symmetry. apply zsum_zero. intros l _. unfold bget. rewrite HZ. ring.
 Qed.
 
@@ -347,10 +348,14 @@ Proof.
   - (* Diag *) simpl. apply acts_sym_mt; [apply dtr_ddiag|apply acts_diag; assumption].
   - (* ConstantDiag *) simpl. apply acts_sym_mt; [apply dtr_dconstdiag|apply acts_constdiag].
   - (* Identity *) simpl. apply acts_sym_mt; [apply dtr_deye|apply acts_identity].
-  - (* Zero *) destruct b; [|discriminate]. simpl. destruct tf; simpl; apply acts_zero; reflexivity.
+  - (* Zero *) simpl. destruct tf; simpl; apply acts_zero; reflexivity.
   - (* Toeplitz *) simpl. apply acts_sym_mt; [apply dtr_dtoeplitz|apply acts_toeplitz].
   - (* Triangular *) apply acts_dmm.
-  - (* Chol *) destruct u; [discriminate|]. simpl. apply (acts_root (dmm t) (dmm (dtr t)) t tf); apply acts_dmm.
+  - (* Chol *) destruct u; simpl.
+    + (* upper: R^T (R X) *)
+      eapply acts_eq; [|apply (acts_root (dmm (dtr t)) (dmm t) (dtr t) tf); [apply acts_dmm|eapply acts_eq; [apply BTeq_sym; apply dtr_dtr|apply acts_dmm]]].
+      apply mt_eq. apply dmm_eq_r; [apply bcompat_refl|reflexivity|apply dtr_dtr].
+    + apply (acts_root (dmm t) (dmm (dtr t)) t tf); apply acts_dmm.
   - (* Root *) simpl. apply (acts_root (mm false e) (mm true e) (denote e) tf); [apply (IHe HW HC false)|apply (IHe HW HC true)].
   - (* LowRankRoot *) simpl. apply (acts_root (mm false e) (mm true e) (denote e) tf); [apply (IHe HW HC false)|apply (IHe HW HC true)].
   - (* Kron *) cbn [mm denote sz sz_b fst]. rewrite denote_kron_fold. rewrite pw_fix_pwc in *.
@@ -460,23 +465,4 @@ Proof.
   - (* Kernel *) cbn [mm denote]. destruct tf; simpl mt; [|apply acts_dmm].
     eapply acts_eq; [apply BTeq_sym; apply dtr_dkernel; assumption|apply acts_dmm].
   - (* UserMinimal *) apply acts_dmm.
-Qed.
-
-(* ---- refutations of the two excluded cells ------------------------------------------------------- *)
-
-Lemma chol_upper_refuted : exists A X,
-  wf (Chol A true) /\ okrhs (denote (Chol A true)) X /\ ~ (mm false (Chol A true) X == dmm (denote (Chol A true)) X).
-Proof.
-  exists (of_table [] 2 2 [[[1; 2]; [0; 3]]]), (of_table [] 2 2 [[[1; 0]; [0; 1]]]).
-  split; [reflexivity|]. split; [split; reflexivity|].
-  intros (_ & _ & _ & H). specialize (H [] 0%nat 0%nat I). 
-  assert (H' := H ltac:(vm_compute; lia) ltac:(vm_compute; lia)). vm_compute in H'. discriminate.
-Qed.
-
-Lemma zero_batch_refuted : exists b m n X,
-  wf (Zero b m n) /\ okrhs (denote (Zero b m n)) X /\ ~ (mm false (Zero b m n) X == dmm (denote (Zero b m n)) X).
-Proof.
-  exists [2%nat], 1%nat, 1%nat, (of_table [] 1 1 [[[1]]]).
-  split; [reflexivity|]. split; [split; reflexivity|].
-  intros (H & _). vm_compute in H. discriminate.
 Qed.
